@@ -154,7 +154,9 @@ def harness(env, case):
     for c in COLS_NUM:
         cols[c] = env.column(c.replace(" ", "_"), N)
     clean = env.frame({**cols, **{k: (v * (N // len(v) + 1))[:N] for k, v in COLS_CAT.items()}})
-    clean[""] = [float("nan") if i % 3 == 2 else 1.0 for i in range(N)]  # an unused column whose label is the empty string
+    clean[""] = [float("nan") if i % 3 == 2 else 1.0 for i in range(N)]
+    for k_, nm in enumerate(("I", "shrink", "center")):
+        clean[nm] = [float("nan") if i % 3 == (k_ % 3) else 2.0 for i in range(N)]  # unused columns named like the functions the formulas call  # an unused column whose label is the empty string
     if dupindex == "multi":
         clean.index = pd.MultiIndex.from_tuples([(f"s{i // 2}", i % 2) for i in range(N)], names=["subject", "visit"])
     elif dupindex:
